@@ -199,3 +199,40 @@ Theorem C03_unfolded_channel_table_differs :
 Proof. exact plain_dict_is_case_sensitive. Qed.
 Print Assumptions C03_unfolded_channel_table_differs.
 
+(* The length bound of a channel name is inclusive (ircutils.isChannel:
+   len(s) <= channellen; isChannelCapability / isAntiCapability /
+   fromChannelCapability rest on it). *)
+Theorem C03_isChannel_spec :
+  forall s, isChannel s = true <->
+  s <> [] /\ mem COMMA s = false /\ mem BEL s = false /\ hd_in gen.T03.CHANTYPES s = true /\
+  (length s <= gen.T03.CHANNELLEN)%nat /\ one_word s = true.
+Proof. exact isChannel_spec. Qed.
+Print Assumptions C03_isChannel_spec.
+
+(* with the regenerated CHANNELLEN: a name of exactly CHANNELLEN characters is a
+   channel and one more is not; '<name>,x' is a channel capability, '<name>,-x'
+   an anti-capability *)
+Theorem C03_channel_length_boundary :
+  length (name_of_len gen.T03.CHANNELLEN) = gen.T03.CHANNELLEN /\
+  isChannel (name_of_len gen.T03.CHANNELLEN) = true /\
+  isChannel (name_of_len (S gen.T03.CHANNELLEN)) = false /\
+  chan_parts (name_of_len gen.T03.CHANNELLEN ++ COMMA :: [120]) = Some (name_of_len gen.T03.CHANNELLEN, [120]) /\
+  isAntiCapability (name_of_len gen.T03.CHANNELLEN ++ COMMA :: DASH :: [120]) = true /\
+  chan_parts (name_of_len (S gen.T03.CHANNELLEN) ++ COMMA :: [120]) = None.
+Proof. exact channel_length_boundary. Qed.
+Print Assumptions C03_channel_length_boundary.
+
+(* For EVERY channel name of exactly CHANNELLEN characters, every database
+   built by add and every flag triple, '<name>,x' and '<name>,-x' are decided by
+   the channel branch of the decision list (channel-op status, the channel's
+   explicit setting, its defaultAllow), not by the global defaults. *)
+Theorem C03_boundary_channel_follows_spec :
+  forall d chn x f (anti : bool),
+  length chn = gen.T03.CHANNELLEN ->
+  hd_in gen.T03.CHANTYPES chn = true -> mem COMMA chn = false -> mem BEL chn = false -> nows chn = true ->
+  wf_cap x = true -> hd_is DASH x = false -> chan_parts x = None -> db_ok d = true ->
+  checkCapability d (if anti then chn ++ COMMA :: DASH :: x else chn ++ COMMA :: x) f =
+  Ok (spec_flags d (chn ++ COMMA :: x) (chn ++ COMMA :: DASH :: x) (Some (chn, x, DASH :: x)) f anti).
+Proof. exact boundary_channel_follows_spec. Qed.
+Print Assumptions C03_boundary_channel_follows_spec.
+
